@@ -19,7 +19,7 @@ from kmip.core import utils  # noqa: E402
 from kmip.core.messages import messages  # noqa: E402
 from kmip.services.kmip_protocol import KMIPProtocol  # noqa: E402
 
-LEAN_MODULES = ["KmipModel.Props.C19"]
+LEAN_MODULES = ["KmipModel.Props.C19", "KmipModel.Props.C19Encode"]
 VERSIONS = [10, 11, 12, 13, 14, 20]
 CLASSES = G.RESPONSE_CLASSES
 RULE = ("complete matrix: all 24 client operations (21 ProxyKmipClient methods + KMIPProxy query / discover_versions / "
@@ -585,6 +585,12 @@ def run(ctx):
                         "case": d["case"], "model": d["model"], "impl": d["impl"]}, no_input=True)
     cov["model_divergences"] = len(div) + len(fdiv)
     finish_cov(ctx, cov)
+    # M16: the request ENCODER model: bytes of every generated request == RequestMessage.write; the model's bytes are read
+    # back by the real decoder; frames of the real client decode alike under the real decoder and M14
+    import encode_request_check
+    er = encode_request_check.run(ctx, random.Random("c19-encreq-%s" % ctx.seed))
+    ctx.coverage["request_encoder"] = er
+    ctx.coverage["evaluations"] = ctx.coverage.get("evaluations", 0) + int(er.get("requests", 0) or er.get("evaluations", 0) or 0)
 
 
 def search(ctx, broken):
